@@ -80,7 +80,7 @@ class Engine:
         foreign = []
         if "tx3-cardano" in mir_files:
             foreign += ["pallas-primitives", "pallas-codec", "pallas-addresses", "pallas-crypto"]
-        if "tx3-resolver" in mir_files:
+        if "tx3-resolver" in mir_files or "tx3c" in mir_files:
             foreign += ["serde_json"]
         if foreign:
             for c in foreign:
@@ -1540,6 +1540,9 @@ class Engine:
         # type parameters (single identifiers that are not known types) resolve by the runtime value
         if base in s.repo_types and len(s.typedefs[base]) > 1:
             return s.canon_type(t, s.fn_module(frame.fn) if frame is not None else None), False
+        # `impl Trait` in argument position is an anonymous type parameter as well
+        if t.startswith("impl ") and args:
+            return s.runtime_type(args[0]), True
         if re.fullmatch(r"[A-Z]\w{0,2}|Self|__\w+", base) and base not in s.typedefs:
             if args:
                 return s.runtime_type(args[0]), True
